@@ -81,7 +81,7 @@ def case_strategy(draw, tier, wiring=False):
     allow = [] if mode != 'list' else draw(st.lists(pattern_for(pat_names), min_size=1, max_size=5))
     c.update({'metrics': metrics, 'mode': mode, 'allow': allow, 'via': draw(st.sampled_from(['env', 'yaml'])),
               'env_ws': draw(st.sampled_from(['', ' ', ' , ', ',,'])),
-              'yaml_shape': draw(st.sampled_from(['list', 'null', 'tilde', 'commented', 'missing']))})
+              'yaml_shape': draw(st.sampled_from(['list', 'null', 'tilde', 'commented', 'missing'])), 'yaml_scalar': draw(st.booleans())})
     return c
 
 
@@ -154,13 +154,15 @@ def set_allowlist_env(case, tmpdir):
         path = os.path.join(tmpdir, 'safe.yaml')
         with open(path, 'w') as f:
             f.write('openlineage:\n  heartbeat_interval: 10\n')
-            shape = case.get('yaml_shape', 'list') if not case['allow'] else 'list'
+            shape = case.get('yaml_shape', 'list') if not case['allow'] else ('scalar' if case.get('yaml_scalar') and len(case['allow']) == 1 else 'list')
             if shape == 'null':
                 f.write('safe_metrics:\n')                       # key present, no value
             elif shape == 'tilde':
                 f.write('safe_metrics: ~\n')
             elif shape == 'commented':
                 f.write('safe_metrics:\n#  - frames_processed\n#  - "*_fps"\n')  # every entry commented out
+            elif shape == 'scalar':
+                f.write('safe_metrics: ' + json.dumps(case['allow'][0]) + '\n')   # a single entry written as a plain string instead of a one-item list
             elif shape == 'missing':
                 pass                                             # no safe_metrics key at all
             else:
@@ -174,7 +176,7 @@ def judge(case, lineage, have_data, name_of=lambda n: n):
     exported = {}
     for facets in lineage.calls:
         exported.update(facets)
-    classes = [f'allowlist {case["mode"]}', f'via {case["via"]}'] + ([f'yaml {case.get("yaml_shape")}'] if case['via'] == 'yaml' and not (case['allow'] if case['mode'] == 'list' else []) and case['mode'] != 'absent' else [])
+    classes = [f'allowlist {case["mode"]}', f'via {case["via"]}'] + ([f'yaml {case.get("yaml_shape")}'] if case['via'] == 'yaml' and not (case['allow'] if case['mode'] == 'list' else []) and case['mode'] != 'absent' else []) + (['yaml single entry as scalar'] if case['via'] == 'yaml' and case.get('yaml_scalar') and len(case['allow']) == 1 else [])
     names = set(have_data)
     denied_seen = allowed_seen = False
     for key, val in exported.items():
